@@ -523,7 +523,10 @@ def judge_iso(ctx, bins, cases, threads):
         if o.startswith("abort:") or o.startswith("throw:"):
             continue
         f = fields(o)
-        mlines.append("iso N=%d nb=%s w=%s pre=%s" % (c.N, f.get("nb", ""), mat_txt(c.W), f.get("pre", "")))
+        extra = ""
+        if c.eig == "dense" and c.N <= 16:      # certificate of the final embedding (exact LDLt: small N only)
+            extra = " d=%d ev=%s Y=%s" % (c.d, f.get("ev", ""), f.get("Y", ""))
+        mlines.append("iso N=%d nb=%s w=%s pre=%s%s" % (c.N, f.get("nb", ""), mat_txt(c.W), f.get("pre", ""), extra))
         midx.append(i)
     mout = model_lines(ctx, mlines) if mlines else []
     if mout is None:
@@ -580,6 +583,16 @@ def judge_iso(ctx, bins, cases, threads):
                      "squared geodesics [%s; geodesics %ssymmetric]" % (vf.get("cmds"), "" if vf.get("sym") == "1" else "a"),
                      case=small.line(), detail={"verdict": v, "original": lines[i][:1500], "impl": ref[:1500]})
             continue
+        yv = vf.get("y", "na")
+        ctx.stat("iso:embedding-certificate:" + yv.split(":")[0])
+        if yv.startswith("ok"):
+            ctx.stat("approx-comparisons", c.N * c.d + c.d * c.d)
+        if yv.startswith("FAIL") and "iso:embedding:" + yv not in ctx.c04_seen:
+            ctx.c04_seen.add("iso:embedding:" + yv)
+            ctx.fail("iso:embedding-not-classical-mds:" + yv,
+                     "the embedding returned by Isomap is not the classical-MDS solution of the reference geodesics (%s: "
+                     "Gram matrix / eigen-residual / extremality checked in exact arithmetic, tolerance 2^-30*scale)" % yv,
+                     case=lines[i], detail={"verdict": v, "impl": ref[:3000]})
         if vf.get("pre") != "ok":
             if vf.get("cmds") == "ok":
                 ctx.broken("corr:iso-pre", "correspondence c04_iso: matrix handed to the eigensolver vs model isomapPre",
@@ -735,7 +748,7 @@ def correspond(ctx):
     for n in range(niso):
         N = r.choice([8, 8, 16]) if quick else r.choice([8, 16, 16, 32])
         W, kind = (i_points if n % 3 else i_matrix)(r.fork(), N)
-        iso.append(Iso(W, r.range(3, min(7, N - 1)), r.range(1, 3), "dense", 1 if r.chance(1, 4) else 0, kind))
+        iso.append(Iso(W, r.range(3, min(7, N - 1)), r.range(1, 3), "dense", 1 if r.chance(3, 4) else 0, kind))
     iso.sort(key=lambda c: 0 if all(c.W[i][j] == c.W[j][i] for i in range(c.N) for j in range(i)) else 1)
     judge_iso(ctx, bins["iso"], iso, [1, 3, 8] if quick else THREADS)
     ctx.log("isomap end to end: %d cases" % len(iso))
